@@ -59,7 +59,7 @@ func (b *ProcessLogBuffer) GetLogRange(offsetFromEnd, limit int) []string {
 	if limit == 0 {
 		return b.buffer[len(b.buffer)-offsetFromEnd:]
 	}
-	return b.buffer[len(b.buffer)-offsetFromEnd : offsetFromEnd+limit]
+	return b.buffer[len(b.buffer)-offsetFromEnd : len(b.buffer)-offsetFromEnd+limit]
 }
 
 func (b *ProcessLogBuffer) GetLogLength() int {
